@@ -3,7 +3,7 @@
    unlocked deposits (multi- and single-asset), bank sends, block changes and rejected operations is exactly the initial
    excess plus the tokens sent to it by plain bank sends plus one unit per accepted odd single-asset deposit. *)
 From MD.Model Require Import Base Ownable Epoch PoolMath Types PoolManager FarmManager Chain.
-From MD.Proofs Require Import Tactics Arith PoolMathProofs MapLemmas BankProofs SwapProofs ChainProofs PmProofs PmChainProofs LiquidityProofs
+From MD.Proofs Require Import LockedExcess Tactics Arith PoolMathProofs MapLemmas BankProofs SwapProofs ChainProofs PmProofs PmChainProofs LiquidityProofs
   AtomicProofs PoolCustody PoolCustodyChain SingleSided TxBalances TxExcess.
 
 Definition asset_denom (d : string) : Prop := forall id, d <> lp_of_id id.
@@ -13,15 +13,18 @@ Definition covered_op (o : op) : Prop :=
   match o with
   | SetBlock _ | SetFault _ => True
   | BankSendOp from _ _ => from <> PM
-  | Tx sender target m _ =>
+  | Tx sender target m funds =>
       sender <> PM /\ target = PM /\
       match m with
       | WPm (PmSwap _ _ _ r _) | WPm (PmRoute _ _ r _) | WPm (PmProvide _ _ r _ None _) => r <> Some PM
+      | WPm (PmProvide _ _ _ _ (Some _) _) =>      (* LP locked in the farm manager: deposits of two or more assets *)
+          match aggregate_coins funds with Ok (_ :: _ :: _) => True | _ => False end
       | WPm (PmWithdraw _) => True
       | _ => False
       end
   end.
-Definition ok_state (w : world) : Prop := pm_fee_collector (pm_cfg (w_pm w)) <> PM /\ lp_inv (w_pm w).
+Definition ok_state (w : world) : Prop :=
+  pm_fee_collector (pm_cfg (w_pm w)) <> PM /\ pm_farm_manager (pm_cfg (w_pm w)) = FM /\ lp_inv (w_pm w).
 
 (* what an operation adds to the excess: only donations and the odd unit of an accepted single-asset deposit *)
 Definition gift (w : world) (o : op) (d : string) : Z :=
@@ -68,7 +71,7 @@ Lemma step_excess w o d :
   covered_op o -> ok_state w -> asset_denom d ->
   slackP (fst (step w o)) d = slackP w d + gift w o d.
 Proof.
-  intros Hc [Hfc Hlp] Hd. unfold gift.
+  intros Hc (Hfc & Hfmc & Hlp) Hd. unfold gift.
   destruct o as [b|sender target m funds|from to amount|k]; cbn [step covered_op] in *.
   - cbn [fst snd]. unfold slackP. cbn [w_bank w_pm set_block]. lia.
   - destruct Hc as (Hs & -> & Hm).
@@ -76,8 +79,12 @@ Proof.
     rewrite slackP_set_fault.
     destruct m as [| |pm|]; try contradiction.
     destruct pm as [denoms decimals fees pt oid | ls ss r pid u l | ask bp ms r pid | pid | a | ops mr r ms | fc fm fee t]; try contradiction.
-    + (* deposits without locking *)
-      destruct u as [dur|]; [contradiction|].
+    + (* deposits *)
+      destruct u as [dur|].
+      { (* locked in the farm manager *)
+        destruct (aggregate_coins funds) as [[|d0 [|d1 rest]]|e] eqn:Hagg; try contradiction.
+        destruct (locked_provide_tx_excess _ _ _ _ _ _ _ _ _ _ _ _ _ Hs Hfmc Hagg E) as (p & minliq & Hp & _ & Hex).
+        rewrite Hex, (pool_lp_not_asset _ _ _ _ Hlp Hd Hp). unfold ind. lia. }
       destruct (run_tx_ok_handle _ _ _ _ _ _ E) as (w1 & w2 & subs & Hs1 & Eh).
       destruct (handle_pm_bank _ _ _ _ _ _ Eh) as (s1 & Hx & _). cbn [pm_execute] in Hx.
       destruct (provide_needs_funds _ _ _ _ _ _ _ _ _ _ _ Hx) as (deps & Hagg & Hne).
@@ -143,20 +150,21 @@ Proof.
 Qed.
 
 (* the state conditions of [good_run] are decidable / invariant: LP denoms are canonical in every reachable world, and
-   the fee collector can be checked along the run *)
+   the fee collector and the farm manager address can be checked along the run *)
 Fixpoint fc_ok_run (w : world) (ops : list op) : bool :=
   match ops with
   | [] => true
-  | o :: r => negb (String.eqb (pm_fee_collector (pm_cfg (w_pm w))) PM) && fc_ok_run (fst (step w o)) r
+  | o :: r => negb (String.eqb (pm_fee_collector (pm_cfg (w_pm w))) PM) && String.eqb (pm_farm_manager (pm_cfg (w_pm w))) FM &&
+              fc_ok_run (fst (step w o)) r
   end.
 
 Lemma good_run_intro ops : forall w,
   lp_inv (w_pm w) -> Forall covered_op ops -> fc_ok_run w ops = true -> good_run w ops.
 Proof.
   induction ops as [|o r IH]; intros w Hl Hc Hf; cbn [good_run fc_ok_run] in *; [exact I|].
-  inversion Hc as [|x xs Ho Hr]; subst. apply andb_true_iff in Hf. destruct Hf as [Hf1 Hf2].
+  inversion Hc as [|x xs Ho Hr]; subst. apply andb_true_iff in Hf. destruct Hf as [Hf1 Hf2]. apply andb_true_iff in Hf1. destruct Hf1 as [Hf1 Hf3].
   split; [exact Ho|]. split.
-  - split; [apply negb_true_iff in Hf1; apply String.eqb_neq in Hf1; exact Hf1 | exact Hl].
+  - split; [apply negb_true_iff in Hf1; apply String.eqb_neq in Hf1; exact Hf1|]. split; [apply String.eqb_eq; exact Hf3 | exact Hl].
   - apply IH; [|exact Hr | exact Hf2].
     change (fst (step w o)) with (run w [o]). apply run_lp_inv. exact Hl.
 Qed.
